@@ -182,21 +182,24 @@ def reverse_direction(ctx, rng_family, n_other):
                 except UnicodeError:
                     pass
                 chunk.append(c)
-            text = "a" + "".join(chunk) + "z"
-            try:
-                s = serializer.HTMLSerializer()
-                b = s.render([{"type": "Characters", "data": text}], encoding=enc)
-                flat, p, t = h5.parse_frag(b.decode(enc), container="div")
-            except Exception as e:
-                ctx.violation("reverse-raised", {"text": text, "encoding": enc}, repr(e))
-                continue
-            got = extract_text(flat)
-            ctx.case(["rev", text, enc])
-            ctx.count("reverse_chars", len(text))
-            if got != text:
-                i = next((i for i in range(min(len(got), len(text))) if got[i] != text[i]), min(len(got), len(text)))
-                ctx.violation("reverse-direction", {"text": text, "encoding": enc},
-                              "encoding %s: char %r came back as %r (bytes %r)" % (enc, text[i:i + 1], got[i:i + 3], b[:80]))
+            # the characters back to back, and each one followed by every class of character that matters to a reader
+            # of the reference written for it (';', a letter, a digit, '=', a space)
+            for text in ["a" + "".join(chunk) + "z"] + ["a" + "".join(c + f for c in chunk) + "z" for f in (";", "b", "7", "=", " ", "x;")]:
+                try:
+                    s = serializer.HTMLSerializer()
+                    b = s.render([{"type": "Characters", "data": text}], encoding=enc)
+                    flat, p, t = h5.parse_frag(b.decode(enc), container="div")
+                except Exception as e:
+                    ctx.violation("reverse-raised", {"text": text, "encoding": enc}, repr(e))
+                    continue
+                got = extract_text(flat)
+                ctx.case(["rev", text, enc])
+                ctx.count("reverse_chars", len(text))
+                if got != text:
+                    i = next((i for i in range(min(len(got), len(text))) if got[i] != text[i]), min(len(got), len(text)))
+                    ctx.violation("reverse-direction", {"text": text, "encoding": enc},
+                                  "encoding %s: char %r came back as %r (bytes %r)" % (enc, text[i:i + 1], got[i:i + 3], b[:80]))
+                    break
 
 
 def run_case(ctx, case):
